@@ -202,6 +202,12 @@ def gen(seed, tier):
         out.append(f"append {arr(s1)} {arr(s2, base=50)} {z(ax)}")
         for op in ("vstack", "row_stack", "dstack", "column_stack"):
             out.append(f"{op} {Lj([arr(s1), arr(s2, base=50)])}")
+    # count vectors that fit neither one count nor one count per entry, composite axis extents included
+    for sh in ([4], [6], [2, 4], [6, 2], [2, 3, 4], [9]):
+        for ax in range(len(sh)):
+            for ln in range(0, sh[ax] + 3):
+                if ln not in (1, sh[ax]):
+                    out.append(f"repeat {arr(sh)} {lst([1 + (k % 3) for k in range(ln)])} z{ax}")
     # public operations WITHOUT a model, out-of-domain arguments only (`monp`: the harness answers z(1) for an error
     # value or a well-formed result and `panic` for a panic; the model side is the constant z(1)) — finding F31
     M = lambda name, ty, rest: out.append(f"monp@{ty} s{hexs(name)} {rest}")
